@@ -222,12 +222,15 @@ def resolve (s : State) : Sel → Except Err (Int × Int × Nat)
 /-! ### `copy_trigger` (no suffix, not moved) -/
 
 /-- deep copy of the object at address `a`, appended to the trigger list; returns the new address -/
-def copyTrigger (s : State) (a : Nat) : Except Err (State × Nat) := do
-  let (_, _, _) ← resolve s (.object a)
-  let t ← heapGet s.heap a
-  let n : Int := s.list.length
-  pure ({ heap := s.heap ++ [{ t with tid := n }], list := s.list ++ [s.heap.length], order := s.order ++ [n] },
-        s.heap.length)
+def copyTrigger (s : State) (a : Nat) : Except Err (State × Nat) :=
+  match resolve s (.object a) with
+  | .error e => .error e
+  | .ok _ =>
+    match heapGet s.heap a with
+    | .error e => .error e
+    | .ok t =>
+      .ok ({ heap := s.heap ++ [{ t with tid := (s.list.length : Int) }], list := s.list ++ [s.heap.length],
+             order := s.order ++ [(s.list.length : Int)] }, s.heap.length)
 
 /-- `heap[a] := g heap[a]` (an attribute write on an existing object) -/
 def heapModify (s : State) (a : Nat) (g : Trig → Trig) : State := { s with heap := s.heap.modify a g }
